@@ -36,7 +36,7 @@ func New(storeDriver store.Store, manager balance.Manager) *VipnodePool {
 		Store:            storeDriver,
 		BalanceManager:   manager,
 		remoteHosts:      map[store.NodeID]jsonrpc2.Service{},
-		remoteNodeLookup: map[jsonrpc2.Service]store.NodeID{},
+		remoteNodeLookup: map[jsonrpc2.Service]map[store.NodeID]struct{}{},
 	}
 }
 
@@ -57,8 +57,8 @@ type VipnodePool struct {
 
 	mu               sync.Mutex
 	remoteHosts      map[store.NodeID]jsonrpc2.Service
-	remoteNodeLookup map[jsonrpc2.Service]store.NodeID // Reverse lookup
-	updating         map[store.NodeID]struct{}         // Nodes with an update in progress
+	remoteNodeLookup map[jsonrpc2.Service]map[store.NodeID]struct{} // Reverse lookup: every host that registered over the connection
+	updating         map[store.NodeID]struct{}                      // Nodes with an update in progress
 }
 
 // TODO: Move CloseRemote and NumRemotes, and remoteHosts etc into a separate struct?
@@ -68,17 +68,20 @@ func (p *VipnodePool) CloseRemote(remote jsonrpc2.Service) error {
 	p.mu.Lock()
 	defer p.mu.Unlock()
 
-	nodeID, ok := p.remoteNodeLookup[remote]
+	nodeIDs, ok := p.remoteNodeLookup[remote]
 	if !ok {
 		// Nothing to clean up
 		return nil
 	}
 
 	delete(p.remoteNodeLookup, remote)
-	if p.remoteHosts[nodeID] == remote {
-		// Only forget the host if it didn't register on a newer connection in
-		// the meantime.
-		delete(p.remoteHosts, nodeID)
+	// More than one host can have registered over the same connection.
+	for nodeID := range nodeIDs {
+		if p.remoteHosts[nodeID] == remote {
+			// Only forget the host if it didn't register on a newer
+			// connection in the meantime.
+			delete(p.remoteHosts, nodeID)
+		}
 	}
 
 	return nil
@@ -381,7 +384,10 @@ func (p *VipnodePool) connect(ctx context.Context, nodeID string, req ConnectReq
 			return nil, fmt.Errorf("connection closed during registration of %s", pretty.Abbrev(nodeID))
 		}
 		p.remoteHosts[node.ID] = service
-		p.remoteNodeLookup[service] = node.ID
+		if p.remoteNodeLookup[service] == nil {
+			p.remoteNodeLookup[service] = map[store.NodeID]struct{}{}
+		}
+		p.remoteNodeLookup[service][node.ID] = struct{}{}
 		p.mu.Unlock()
 	}
 
